@@ -12,8 +12,9 @@ PROP = dict(
                  'checked by the oracle only', 'tokens longer than bufio.MaxScanTokenSize (64 KiB) are not generated'],
 )
 MANIFEST = dict(
-    text="Coq theorems: the models of ParseMove, ParseServer, ParseTPS (over arbitrary byte lists) never return Panic; the PTN-file and TEI "
-         "totality theorems are exported from the C12/C17 developments. The models' outcome class (value / error / panic) is compared with the "
+    text="Coq theorems, each for EVERY byte list: the models of ParseMove, ParseServer, ParseTPS (incl. FromSquares), of the PTN-file entry "
+         "point (ParsePTN, InitialPosition, whole replay through the Iterator, PositionAtMove) and of the TEI command stream (Engine.Run with "
+         "an arbitrary searcher oracle) never return Panic. The models' outcome class (value / error / panic) is compared with the "
          "implementation's on every generated string, exhaustively for short strings, and every call runs under recover and a deadline.",
     ref='5.13', technique='Coq totality proofs over models with explicit Panic results + model/implementation differential on byte strings (exhaustive for short strings) + crash/hang oracle',
     note="Trusted: Coq kernel, extraction, transcriptions (their Panic guards are exactly what the correspondence validates), regexp and encoding/json totality.")
